@@ -139,6 +139,8 @@ func ghostTimerPrefix(kg uint16) []byte { return []byte{byte(kg >> 8), byte(kg),
 //@   order Checkpoint after registerBarrier
 //@   atcall Checkpoint: arg0 == barrier.CheckpointId
 //@   atcall Checkpoint: flushErr == nil
+//@   atcall go: false
+//@   ensures result == nil && called(Checkpoint) ==> called(OperatorCheckpointComplete)
 //@   atcall processEventBatch: o.checkpoint != nil && len(o.checkpoint.srIDs) == 0 && o.checkpoint.checkpointID == barrier.CheckpointId
 //@   atcall OperatorCheckpointComplete: arg1.CheckpointId == barrier.CheckpointId && arg1.OperatorId == o.id && arg1.DkvFileUri == cp.URI
 //@   atcall OperatorCheckpointComplete: int(arg1.KeyGroupRange.Start) == o.keyGroupRange.Start && int(arg1.KeyGroupRange.End) == o.keyGroupRange.End
